@@ -513,6 +513,45 @@ def pytree_cases(ctx, it):
     ctx.case(dict(kind="pytree", fact=fact, q=q, lin=lin, dt=dt), nontrivial=True)
 
 
+def error_state_cases(ctx, it):
+    """the error state returned by a re-linearising estimator is the state returned by the linearisation it performed (with a
+    Monte-Carlo Jacobian handler: the advanced PRNG key), so that successive estimates draw fresh probes; a cached estimator
+    passes its state through (seeded change C07-s9)"""
+    import jax
+    import jax.numpy as jnp
+    from probdiffeq import probdiffeq as pdq
+
+    rng = ctx.rng
+    fact = ["iso", "bd"][it % 2]
+    ssm = {"iso": pdq.state_space_model_isotropic, "bd": pdq.state_space_model_blockdiag}[fact]()
+    vf = pdq.ode(lambda u, /, *, t: 0.5 * u * (1 - u) + 0.25 * jnp.flip(u), jacobian=pdq.jacobian_monte_carlo_rev(num_probes=2, seed=int(rng.integers(1, 100))))
+    tcoeffs, _ = pdq.jetexpand_ode_padded_scan(num=2)(vf, (jnp.asarray([0.25, 0.5, 0.75]),), t=0.0)
+    prior = ssm.prior_wiener_integrated(tcoeffs)
+    con = ssm.constraint_ode_ts1(vf)
+    solver = pdq.solver(strategy=pdq.strategy_filter(), constraint=con)
+    st0 = solver.init(jnp.asarray(0.0), prior, damp=0.0)
+    st1 = solver.step(st0, dt=jnp.asarray(0.125), damp=0.0)
+    for est in ("residual", "state"):
+        for relin in (True, False):
+            err = make_error(con, ECfg(est=est, norm="scale_then_rms", relin=relin, per_unit=False))
+            es0 = con.init_linearization()
+            _, es1 = err.estimate_error_norm(es0, st0, st1, dt=jnp.asarray(0.125), atol=1e-3, rtol=1e-3, damp=0.0)
+            # what the linearisation itself returns as its next state, on the same prediction
+            tr = st0.prior.transition(dt=jnp.asarray(0.125), output_scale=jnp.ones_like(st1.u.prototype_output_scale_calibrated()))
+            rv = tr.apply_flat(st0.u.mean_flat)
+            _, want = con.linearize(rv, es0, damp=0.0, t=st1.t)
+            same_in = bool(jax.tree_util.tree_all(jax.tree_util.tree_map(lambda a, b: bool(jnp.array_equal(a, b)), es1, es0)))
+            same_want = bool(jax.tree_util.tree_all(jax.tree_util.tree_map(lambda a, b: bool(jnp.array_equal(a, b)), es1, want)))
+            case = {"kind": "error-state", "fact": fact, "estimator": est, "re_linearize_before_error": relin, "jacobian": "jacobian_monte_carlo_rev(num_probes=2)"}
+            ctx.case(case, nontrivial=True)
+            ctx.count("error-state bookkeeping")
+            if relin and not same_want:
+                ctx.violation(f"error-state:{est}:relinearised", "the re-linearising estimator does not return the state of the linearisation it performed (stale PRNG key: successive estimates reuse their probes)"
+                              if same_in else "the re-linearising estimator returns a state different from the one of its linearisation", case)
+            if not relin and not same_in:
+                ctx.violation(f"error-state:{est}:cached", "the cached estimator changed the error state although it did not linearise", case)
+
+
 def corpus():
     """fixed minimal cases (one per estimator x factorisation), replayed first"""
     out = []
@@ -551,6 +590,8 @@ def run(ctx):
     run_corpus(ctx)
     for it in range(ctx.n(3, 30)):
         pytree_cases(ctx, it)
+    for it in range(ctx.n(2, 8)):
+        error_state_cases(ctx, it)
     n = ctx.n(12, 300)
     per = ctx.n(6, 8)
     reps = ctx.n(2, 3)
